@@ -346,9 +346,23 @@ def _gen_threads(tier, seed):
 
 def gen_cases(tier, seed):
     yield from _gen_modes(tier, seed)
-    yield from _gen_history(tier, seed)
-    yield from _gen_immutable(tier, seed)
-    yield from _gen_threads(tier, seed)
+    # interleave so that a run cut short by the time budget still covers every contract
+    its = [(_gen_history(tier, seed), 48), (_gen_immutable(tier, seed), 10), (_gen_threads(tier, seed), 1)]
+    while its:
+        for it, w in list(its):
+            for d in itertools.islice(it, w):
+                yield d
+            else:
+                pass
+        # drop exhausted iterators
+        alive = []
+        for it, w in its:
+            try:
+                first = next(it)
+            except StopIteration:
+                continue
+            alive.append((itertools.chain([first], it), w))
+        its = alive
 
 
 # ----------------------------------------------------------------------------
